@@ -190,6 +190,15 @@ pub fn mixed_ternary_program(pos: usize, a: &BigUint, b: &BigUint, template: boo
     }
 }
 
+/// Negated *literals* (the minus sign applied to a number in the source), as operands of every
+/// operator and of the prefix operators, directly and through a variable.
+pub fn negated_literal_program(op: &str, a: &BigUint, b: &BigUint, side: usize) -> String {
+    let (l, r) = if side == 0 { (format!("(-{a})"), b.to_string()) } else { (a.to_string(), format!("(-{b})")) };
+    format!(
+        "function f(n) {{\n    var z = {l} {op} {r};\n    var u = -{a};\n    var v = u {op} {b};\n    var w = 0;\n    if (z == v) {{\n        w = 1;\n    }}\n    if ((~(-{a})) == {b}) {{\n        w = w + 2;\n    }}\n    if (!(-{b})) {{\n        w = w + 4;\n    }}\n    return z + v + w + (-(-{a}));\n}}\n"
+    )
+}
+
 pub fn binop_symbols() -> Vec<&'static str> {
     ALL_BINOPS.iter().map(|o| o.symbol()).collect()
 }
